@@ -14,9 +14,12 @@ package main
 
 import (
 	"context"
+	"encoding/json"
 	"flag"
 	"fmt"
 	"os"
+	"os/exec"
+	"path/filepath"
 	"runtime"
 	"sort"
 	"strconv"
@@ -202,6 +205,12 @@ func runCase(cfg caseCfg, r *vgen.Rand) (out caseOut) {
 	out.Stats = map[string]int64{}
 
 	tr := router.VerifPoolNewTracker(6000)
+	if vp := os.Getenv("C14_VIOL"); vp != "" {
+		if f, err := os.OpenFile(vp, os.O_CREATE|os.O_WRONLY|os.O_APPEND, 0o644); err == nil {
+			defer f.Close()
+			tr.OnViolation = func(msg string) { _, _ = f.WriteString(msg + "\n") }
+		}
+	}
 	router.VerifPoolInstall(tr)
 	defer router.VerifPoolInstall(nil)
 	op := &opener{reuse: cfg.Reuse, tr: tr, rng: r.Fork(7)}
@@ -563,6 +572,78 @@ func term(o *caseOut) string {
 	return vgen.App("CTrace", b(o.N), vgen.List(kinds), vgen.List(evs), vgen.List(np))
 }
 
+type isoResult struct {
+	Out    *caseOut
+	Crash  string   // last lines of the child's stderr if it did not finish
+	Viols  []string // ownership violations the tracker reported before the crash
+	Reruns int
+}
+
+// runIsolated runs case i in a child process (this binary with C14_CHILD set). A crash without
+// any ownership violation reported by the tracker is retried once: stopping a router whose BFD
+// sessions transmit is inherently racy (udpConnection.stop closes the send queue before the
+// sessions are stopped) although the runner waits for a quiet moment.
+func runIsolated(i int) *isoResult {
+	r := &isoResult{}
+	exe, err := os.Executable()
+	if err != nil {
+		r.Crash = err.Error()
+		return r
+	}
+	for attempt := 0; attempt < 2; attempt++ {
+		dir, err := os.MkdirTemp("", "c14-")
+		if err != nil {
+			r.Crash = err.Error()
+			return r
+		}
+		resPath, violPath := filepath.Join(dir, "result.json"), filepath.Join(dir, "viol.txt")
+		ctx, cancel := context.WithTimeout(context.Background(), 90*time.Second)
+		cmd := exec.CommandContext(ctx, exe, os.Args[1:]...)
+		cmd.Env = append(os.Environ(), "C14_CHILD="+strconv.Itoa(i), "C14_RESULT="+resPath,
+			"C14_VIOL="+violPath)
+		var stderr strings.Builder
+		cmd.Stderr = &stderr
+		runErr := cmd.Run()
+		cancel()
+		b, rerr := os.ReadFile(resPath)
+		vb, _ := os.ReadFile(violPath)
+		os.RemoveAll(dir)
+		if runErr == nil && rerr == nil {
+			var out caseOut
+			if json.Unmarshal(b, &out) == nil {
+				r.Out = &out
+				return r
+			}
+		}
+		r.Crash = fmt.Sprint(runErr) + ": " + tail(stderr.String(), 1500)
+		r.Viols = nil
+		for _, l := range strings.Split(string(vb), "\n") {
+			if l != "" {
+				r.Viols = append(r.Viols, l)
+			}
+		}
+		if len(r.Viols) > 0 {
+			return r
+		}
+		r.Reruns++
+	}
+	return r
+}
+
+func tail(s string, n int) string {
+	if i := strings.Index(s, `"msg":"Panic"`); i >= 0 {
+		s = s[i:]
+		if len(s) > n {
+			return s[:n]
+		}
+		return s
+	}
+	if len(s) > n {
+		return s[len(s)-n:]
+	}
+	return s
+}
+
 // panicOnly lets through what log.HandlePanic writes and nothing else.
 type panicOnly struct{ zapcore.Core }
 
@@ -590,7 +671,7 @@ func main() {
 	run.CheckFn = "Pool.check"
 	run.DiagFn = "Pool.diag"
 	run.CaseType = "Pool.case"
-	run.ShardSize = 12
+	run.ShardSize = 4
 	run.Rule = "each case = one run of the real dataplane (Run .. Shutdown) over the udpip provider " +
 		"with fake sockets: seeded configuration (batch 1-8, 1-3 processors, 1-2 slow-path " +
 		"processors, GOMAXPROCS 1-8, shared or own sibling socket, BFD on/off), 40-120 datagrams of " +
@@ -599,18 +680,74 @@ func main() {
 		"non-trivial = buffers were returned by at least 3 different stages and at least one fault " +
 		"path (partial or failed write, or a queue-full/invalid drop) was taken"
 	rng := vgen.NewRand(run.Seed)
-	nc := run.Count(120, 3000)
+	nc := run.Count(48, 1500)
+
+	// Child mode: execute one case in this process and write the result (see runIsolated).
+	if ci := os.Getenv("C14_CHILD"); ci != "" {
+		want, _ := strconv.Atoi(ci)
+		for i := 0; i <= want; i++ {
+			r := rng.Fork(uint64(i))
+			cfg := genCfg(r, i)
+			if i == want {
+				out := runCase(cfg, r)
+				b, err := json.Marshal(&out)
+				if err == nil {
+					err = os.WriteFile(os.Getenv("C14_RESULT"), b, 0o644)
+				}
+				if err != nil {
+					fmt.Fprintln(os.Stderr, "child:", err)
+					os.Exit(4)
+				}
+			}
+		}
+		return
+	}
+
+	// Every case runs in a process of its own: a buffer that is owned twice usually makes the
+	// router panic (log.HandlePanic exits the process), and so does a BFD packet sent while the
+	// router is being stopped. The parent survives and reports.
+	cfgs := make([]caseCfg, nc)
+	res := make([]*isoResult, nc)
 	for i := 0; i < nc; i++ {
-		r := rng.Fork(uint64(i))
-		cfg := genCfg(r, i)
+		cfgs[i] = genCfg(rng.Fork(uint64(i)), i)
+	}
+	sem := make(chan struct{}, 4)
+	var wg sync.WaitGroup
+	for i := 0; i < nc; i++ {
+		if !run.WantID(i) {
+			continue
+		}
+		wg.Add(1)
+		sem <- struct{}{}
+		go func(i int) {
+			defer wg.Done()
+			defer func() { <-sem }()
+			res[i] = runIsolated(i)
+		}(i)
+	}
+	wg.Wait()
+	for i := 0; i < nc; i++ {
+		cfg := cfgs[i]
 		if !run.Want() {
 			run.Skip()
 			continue
 		}
-		if *dump {
-			fmt.Fprintf(os.Stderr, "start %d %+v\n", i, cfg)
+		if res[i].Reruns > 0 {
+			run.Tally("case-rerun-after-crash-without-ownership-violation")
 		}
-		out := runCase(cfg, r)
+		if res[i].Out == nil {
+			// the router crashed: no trace; the tracker's findings (written as they happened)
+			desc := map[string]any{"cfg": cfg, "crash": res[i].Crash, "tracker": res[i].Viols}
+			id := run.Add("crash", "(CTrace b0 [] [] [])", fmt.Sprintf("%d/%+v", i, cfg), false, desc)
+			for _, v := range res[i].Viols {
+				run.Violate(id, v+" (the router crashed afterwards)", desc)
+			}
+			if len(res[i].Viols) == 0 {
+				run.Violate(id, "the router crashed: "+res[i].Crash, desc)
+			}
+			continue
+		}
+		out := *res[i].Out
 		stagesPut := map[int]int{}
 		for _, e := range out.Events {
 			if e.Kind == router.VerifPoolPut && e.G < len(out.Threads) {
